@@ -99,7 +99,7 @@ func goDecode(bs []byte, host string) (string, starlark.Value) {
 			u = testUnpickler(false)
 		case "H":
 			u = testUnpickler(true)
-		case "E": // dawn's own unpickler for function environments (no model counterpart: judged only)
+		case "E": // dawn's own unpickler for function environments (model: envHost in Dawn/Model/Pickle.lean)
 			u = pickle.UnpicklerFunc(dawn.VerifEnvUnpickler)
 		}
 		x, err = pickle.NewDecoder(bytes.NewReader(bs), u).Decode()
@@ -242,9 +242,7 @@ func doBytes(stream string, bs []byte, host string, judged bool) {
 	if out == "skip" {
 		return
 	}
-	if host != "E" { // dawn's envUnpickler has no counterpart in the pickle model: judged, not compared
-		pair(stream, "dec "+host+" "+hexb(bs), out)
-	}
+	pair(stream, "dec "+host+" "+hexb(bs), out)
 	if judged {
 		stats["c15.judged"]++
 		if cls != "ok" && cls != "err" {
